@@ -45,6 +45,9 @@ CHECKS = {
  'C20': ('E1 state-graph + E3', 'explicit-state exploration of every operation sequence up to a depth over monitor operations on two monitors against a list-of-tuples reference, plus complete enumeration of record histories through LoggingMonitor / write_*_file and their readers (incl. the history write, read, overwrite, read)',
          'Every record of the value alphabet (list/tuple/ndarray/numpy scalars, inf/nan/tiny/huge, ids) and every k; every op sequence <= depth over {record, slice, index, len, +, extend, prepend, Null} for every (kA,kB); every history up to a length through LoggingMonitor(interval, all) then logfile_reader/read_history, and through write_raw/support/converge_file then the matching readers; the reference is compared after every operation and arguments must stay unchanged.',
          'files live in a per-shard temporary directory; nan compared as nan; list-valued fancy indexing not exercised', '3/C20'),
+ 'C16': ('E3 + E2 choice-tree', 'complete enumeration of (decorator configuration, input vector, container) cases over small alphabets with every answer of the numpy/stdlib random draws enumerated by the choice-tree explorer; each case run as t(x) and t(t(x)) against exact membership predicates, selectivity and fixed-point oracles',
+         'Every constraint decorator of the statement around the identity, over all input vectors of length 1-4 on an 8-value alphabet (list and ndarray), index selections incl. negative and out-of-range, interval/sample-set/digit/mask alphabets; impose_bounds(clip=False) and unique with every choice/uniform/shuffle/random answer; impose_as over every list of 1-2 (3) ordered pairs on 4 nodes incl. cyclic masks under a watchdog; one decorated function applied twice in a row (state carried between calls); tools.connected over every list of pairs.',
+         'ties (x.5) and gap values may go to either neighbour; sorting/monotonic rejecting an out-of-range index is counted, not raised; out-of-range mask entries of impose_as judged only in the shapes its docstring shows; integers(ints=True) casts unaddressed entries by documentation (DESIGN section 5)', '3/C16'),
  'C17': ('E2 choice-tree', 'exhaustive enumeration of every random answer of the cycle-breaking draws (choice-tree DFS, complete first event + deviation bound) over all member tuples/inputs/iteration caps, on the real combinators',
          'Bounded exhaustive exploration of the real and_/or_/not_ under a harness-owned random source: every configuration of the member alphabet x input grid x maxiter, every answer of the first randomisation event and all later answers within a deviation bound; success-path results re-judged against each member. Couplers and penalty combinators are enumerated over a grid against their literal definitions.',
          'member alphabet of 10 functions on 2-vectors; random() answers from a 5-value alphabet, randint complete; python semantics of list equality', '3/C17'),
